@@ -69,7 +69,7 @@ CHECKS = {
              ' Further families: several requests on one long-lived client; 2-3 tasks on one async client and 2-3 baton '
              'threads on one sync client with overlapping attempts (pairing judged per request object); calls issued '
              'while the caller handles an unrelated exception.'
-             ' The library LoggingTracer can sit among the recording tracers, tracer hooks can be installed per instance, the caller-supplied trace context can be an object that accepts no attributes or a callable; a synchronous transport can raise StopIteration, any transport asyncio.CancelledError.',
+             ' The library LoggingTracer can sit among the recording tracers, tracer hooks can be installed per instance, the caller-supplied trace context can be an object that accepts no attributes or a callable; a synchronous transport can raise StopIteration, any transport asyncio.CancelledError; the tracers are handed over as list, tuple, deque or a dict values view.',
         note='Trusted: the pairing oracle (Appendix F.6), SimLoop cancellation timing, SimNet. Tracers do not raise.',
         technique='deterministic simulation: fault sequences + seeded cancellation instants, history pairing oracle',
     ),
@@ -227,7 +227,7 @@ CHECKS = {
              ' Each run issues 1-3 POSTs on the same long-lived applications (main endpoint and a sub-endpoint with its '
              'own dispatcher; the serving dispatcher is identified). Network delivery fault on the aiohttp hop: the body '
              'reaches the handler in 2-3 in-order pieces on the virtual clock, the later ones while the handler runs.'
-             ' Bodies padded with JSON and non-JSON white space or a byte order mark, blank bodies; Flask: extension initialised for an earlier application, additional endpoint with a trailing slash on a blueprint of its own.',
+             ' Bodies padded with JSON and non-JSON white space or a byte order mark, blank bodies; Flask: extension initialised for an earlier application, additional endpoint with a trailing slash on a blueprint of its own; aiohttp: the JSON-RPC application mounted as a sub-application of a parent application.',
         note='Trusted: the in-process hops (WSGI test clients; aiohttp handler awaited on SimLoop with a mocked request '
              'and a real StreamReader). One hop, no clock: weakest simulation content after C01. Known finding: Flask 3.1 '
              'JSON provider vs pjrpc encoder (see known_findings.json).',
